@@ -513,6 +513,9 @@ func (ex *Exec) frameOf(fn *ssa.Function) *writeSet {
 	}
 	saved := ex.discover
 	savedPath := ex.inlinePath
+	if saved == nil {
+		ex.discoverFresh = map[int]bool{}
+	}
 	ex.discover = ws
 	st := ex.newState()
 	ex.havocAllHeap(st)
@@ -838,6 +841,7 @@ func (ex *Exec) execDeferredInner(fr *Frame, st *State, d *ssa.Defer, args []*Va
 // execGo: the spawned body is not part of the sequential VC.  Cells it may
 // write become volatile for the parent from here on.
 func (ex *Exec) execGo(fr *Frame, st *State, in *ssa.Go) {
+	ex.raceObligations(fr, st, in)
 	c := in.Common()
 	var fn *ssa.Function
 	var bindings []ssa.Value
